@@ -275,6 +275,10 @@ class Client(BaseComponent):
         except OSError as e:
             if e.args[0] in (EPIPE, ENOTCONN):
                 self._close()
+            elif e.args[0] in (EINTR, EAGAIN, EWOULDBLOCK, ENOBUFS):
+                # nothing was sent: keep the payload at the front, as the
+                # server side does, and try again when writable
+                self._buffer.appendleft(data)
             else:
                 self.fire(error(e))
 
